@@ -35,7 +35,8 @@ try:
         run = "|".join(tests) or "."
         dst = os.path.join(WT, pkg, "zz_seeded_demo_test.go")
         open(dst, "w").write(src)
-        cmd = f"cd {WT} && go test -vet=off -count=1 -timeout 600s -run '^({run})$' ./{pkg}/"
+        race = "-race " if (props and props[0] == "C18") or "go test -race" in src else ""
+        cmd = f"cd {WT} && go test {race}-vet=off -count=1 -timeout 600s -run '^({run})$' ./{pkg}/"
         fails = 0
         for i in range(3):
             r = sh(cmd, 900)
